@@ -153,6 +153,12 @@ CORPUS = [
     'SELECT i, i % 3 AS d FROM #t ORDER BY i % 3, i DESC',
     "SELECT s, i + 1 AS x FROM #t ORDER BY i + 2 DESC, s",
     'SELECT s, j FROM #t ORDER BY length(s), i DESC',
+    # an alias that is also a column name: the key is the selected column of that name
+    'SELECT s, 10 - i AS i FROM #t ORDER BY i, s',
+    'SELECT s, (i - 4) * (i - 4) AS j FROM #t ORDER BY j DESC, s LIMIT 3',
+    'SELECT DISTINCT s FROM #t ORDER BY i',
+    'SELECT DISTINCT s FROM #t ORDER BY i DESC LIMIT 1',
+    'SELECT DISTINCT t, s FROM #t ORDER BY j DESC',
     'SELECT s FROM (SELECT s, t, i FROM #t) ORDER BY t DESC, i',
     'SELECT s, i FROM #t ORDER BY s DESC, i DESC',
     'SELECT s, i FROM #t ORDER BY s DESC LIMIT 2',
